@@ -99,7 +99,7 @@ claims.update({
 
 claims.update({
  "C10": dict(
-   text="Proof of a lock/ownership discipline over every field of the shared types (BaseClient, signaller, RetryClient, reconnectClient, firstError): each field is classified (guarded by named mutexes with read/write modes, confined to the single task goroutine, atomic-only, configuration written only before the object is shared, or itself a lock); at every load and store of such a field, on every path of every function under contract and of the functions inlined into them, an obligation requires the classified protection given the mutexes held on that path; every Write on the transport stored in BaseClient.Transport requires muWrite, so the wire is a concatenation of whole packets (write() itself is under contract: it holds muWrite across all chunks); functions running in a goroutine role are called only from that role. A completeness scan reports any package function that touches shared state without being covered. Four data races were found this way, confirmed with the race detector and three repaired; one is a recorded finding (D10).",
+   text="Proof of a lock/ownership discipline over every field of the shared types (BaseClient, signaller, RetryClient, reconnectClient, firstError): each field is classified (guarded by named mutexes with read/write modes, confined to the single task goroutine, atomic-only, configuration written only before the object is shared, or itself a lock); at every load and store of such a field, on every path of every function under contract and of the functions inlined into them, an obligation requires the classified protection given the mutexes held on that path; every Write on the transport stored in BaseClient.Transport requires muWrite, so the wire is a concatenation of whole packets (write() itself is under contract: it holds muWrite across all chunks); functions running in a goroutine role are called only from that role. A completeness scan reports any package function that touches shared state without being covered. Four data races were found this way, confirmed with the race detector and repaired (D10-D13).",
    note="This is a sufficient discipline for data-race freedom of the classified fields, not a proof over all interleavings: it trusts Go's mutex/atomic/go-statement happens-before, that one task goroutine exists per RetryClient and one reader per BaseClient (Connect / first SetClient run once), that closures with role task are only stored in the task/retry queues, and 'stable' fields (sig, connClosed, chTask) are treated as unchanged by the functional contracts. ServeMux and the dialer helper types are not shared types in this sense (ServeMux is documented as not safe for concurrent Handle). Objects are considered unshared until they escape the creating function.",
    ref="DESIGN.md section 4.C10"),
 })
